@@ -5,7 +5,7 @@
                 what else happened ("none", "builderror", "hostpanic", ...)
      initorder  {id, nv, nf, deps, outcome, order}
      conv       {id, op, k, v, a, outcome, out}
-     minigo     {id, shape, exp, alt, out, outcome, msg}      (the check strips prog before judging)
+     minigo     {id, shape, exp, alt, nest, out, outcome, msg}  (the check strips prog before judging)
      variadic / select / constuse   {id, <the fields of the case, see GoMisc.tla>, outcome, out}
      pkginit    {id, imps, vars, inits, form, outcome, out}   a program of several packages (PkgInit.tla)
    A record is good iff the observation is what the Go-semantics reference prescribes. *)
@@ -79,7 +79,13 @@ MgOutDiff(r) ==
 \* alt = the observable, by the same reference interpreter, of the program with the labels of its break / continue
 \* statements erased (outcome "none" when the program has no such variant): names the root cause "the label is ignored"
 MgLike(r) == IF r.alt.outcome # "none" /\ r.outcome = r.alt.outcome /\ r.out = r.alt.out THEN "label-ignored" ELSE "other"
-MgRecSig(r) == [fam |-> "minigo", shape |-> r.shape, cause |-> MgCause(r), out |-> MgOutDiff(r), like |-> MgLike(r)]
+\* nest = [jump, at, encl] for a program of MiniGoNest.tla (an unlabelled break / continue in nested statements): the jump,
+\* the kind of the statement it refers to by the specification and the kind of the statement around that one - the
+\* signature names these instead of the whole nest; jump = "" for every other program
+MgRecSig(r) == IF r.nest.jump = ""
+               THEN [fam |-> "minigo", shape |-> r.shape, cause |-> MgCause(r), out |-> MgOutDiff(r), like |-> MgLike(r)]
+               ELSE [fam |-> "minigo", shape |-> "nest", jump |-> r.nest.jump, at |-> r.nest.at, encl |-> r.nest.encl,
+                     cause |-> MgCause(r), out |-> MgOutDiff(r)]
 
 (* ---- variadic, select, constuse: out = the numbers (type names for constuse) the case's program printed *)
 MiscFams == {"variadic", "select", "constuse"}
